@@ -1968,5 +1968,56 @@ def rule_U7(ctx):
             ctx.ok(f.name, "%s (%s) holds the counter without narrowing" % (what, ty), loc=f.loc(n))
 
 
-RULES = {"U7": rule_U7, "M5": rule_M5, "L6": rule_L6, "P3": rule_P3, "X9": rule_X9, "U6": rule_U6, "T7": rule_T7,
+def rule_Q4(ctx):
+    """Every key term_read hands out is appended to the command record term_cmd returns: the
+    append is guarded by nothing but the record's own capacity test.  A guard that reads other
+    program state (a static or global) makes the record depend on where the key came from --
+    keys replayed by `.` or `@r` would be missing from the record of the change they make."""
+    ctx.begin("Q4", floor=1, what="the key record is appended unconditionally (capacity aside)")
+    prog = ctx.prog
+    fc = prog.func("term_cmd", file="term.c")
+    rec = None
+    for n in fc.walk():
+        if n["k"] == "return" and n.get("e") is not None:
+            e = strip_casts(n["e"])
+            if e["k"] == "ref" and e.get("cat") in ("global", "slocal"):
+                rec = e["name"]
+    if rec is None:
+        raise AnalysisBroken("term_cmd does not return a static record")
+    f = prog.func("term_read", file="term.c")
+    found = 0
+    for n, lv, op, rhs in stores(f.body):
+        b = lv
+        if b["k"] != "sub":
+            continue
+        base = strip_casts(b["base"])
+        if base["k"] != "ref" or base["name"] != rec:
+            continue
+        found += 1
+        own = {r["name"] for r in refs(b["idx"])} | {rec}
+        bad = und = None
+        for a in f.ancestors(n["id"]):
+            if a["k"] in ("if", "cond", "while", "for", "do", "switch") and isinstance(a.get("c"), dict):
+                for r in refs(a["c"]):
+                    if r["name"] in own:
+                        continue
+                    if r.get("cat") in ("global", "slocal"):
+                        bad = (a, r["name"])
+                    else:
+                        und = (a, r["name"])
+        if bad:
+            ctx.violation("term_read", "key record appended whatever the key's origin",
+                          "the append to %s[] is guarded by `%s`, which reads the static/global %s: some keys handed "
+                          "out are not recorded, so the record of a change executed from a register or by `.` "
+                          "is incomplete" % (rec, key(bad[0]["c"])[:60], bad[1]), f.loc(n))
+        elif und:
+            ctx.inconclusive("term_read", "key record appended whatever the key's origin",
+                             "the append to %s[] is guarded by `%s` (reads %s)" % (rec, key(und[0]["c"])[:60], und[1]), f.loc(n))
+        else:
+            ctx.ok("term_read", "the append to %s[] is guarded only by its own capacity test" % rec, loc=f.loc(n))
+    if not found:
+        raise AnalysisBroken("term_read does not store into %s[]" % rec)
+
+
+RULES = {"Q4": rule_Q4, "U7": rule_U7, "M5": rule_M5, "L6": rule_L6, "P3": rule_P3, "X9": rule_X9, "U6": rule_U6, "T7": rule_T7,
          "T8": rule_T8, "S6": rule_S6, "S7": rule_S7, "B15": rule_B15, "T9": rule_T9, "T10": rule_T10, "V9": rule_V9, "O4": rule_O4, "X10": rule_X10, "V7": rule_V7, "V8": rule_V8, "O3": rule_O3, "K6": rule_K6, "Q2": rule_Q2, "Q1": rule_Q1, "G9": rule_G9, "G8": rule_G8, "S8": rule_S8, "R14": rule_R14}
